@@ -250,7 +250,9 @@ func init() {
 		wg.Wait()
 		// the throttle over UDP virtual connections: datagrams larger than the burst are read in pieces
 		udpRuns := 0
-		for _, size := range []int{200, 250, 300, 100} {
+		for _, size := range []int{200, 250, 300, 100, -100} {
+			// (a negative size: datagrams of that size through a SLOW throttle behind a SHORT matching timeout - the
+			// association is still being read long after the matching deadline has passed, which must not matter)
 			tr, err := runThrottleUDP(size, 100, udpRuns)
 			if err != nil {
 				errs = append(errs, err.Error())
@@ -378,15 +380,19 @@ func runThrottleProxy(idx int) (map[string]any, error) {
 // burst `burst` (so that each datagram is read in pieces of at most `burst` bytes) and a handler reading three
 // datagrams. Judged by G4 only: the bytes of the three datagrams arrive completely and in order.
 func runThrottleUDP(size, burst, idx int) (map[string]any, error) {
+	rate, mt, slow := 8000, 5*time.Second, false
+	if size < 0 {
+		size, rate, mt, slow = -size, 1000, 150*time.Millisecond, true
+	}
 	rec := vh.NewRecorder(nil)
 	pc := vh.NewFakePC(rec)
 	ctx, cancel := caddy.NewContext(caddy.Context{Context: context.Background()})
 	defer cancel()
 	routes := []map[string]any{{"handle": []map[string]any{
-		{"handler": "throttle", "read_bytes_per_second": 8000, "read_burst_size": burst},
+		{"handler": "throttle", "read_bytes_per_second": rate, "read_burst_size": burst},
 		{"handler": "verif_h", "k": "udp", "n": 3, "buf": 9000}}}}
 	b, _ := json.Marshal(routes)
-	srv := &layer4.Server{MatchingTimeout: caddy.Duration(5 * time.Second)}
+	srv := &layer4.Server{MatchingTimeout: caddy.Duration(mt)}
 	if err := json.Unmarshal(b, &srv.Routes); err != nil {
 		return nil, err
 	}
@@ -418,7 +424,7 @@ func runThrottleUDP(size, burst, idx int) (map[string]any, error) {
 			}
 		}
 	}
-	return map[string]any{"id": fmt.Sprintf("throttle:udp:%d:size%d", idx, size), "scen": map[string]any{"transport": "udp", "size": size, "burst": burst, "datagrams": 3},
+	return map[string]any{"id": fmt.Sprintf("throttle:udp:%d:size%d", idx, size), "scen": map[string]any{"transport": "udp", "size": size, "burst": burst, "datagrams": 3, "slow": slow},
 		"rate": 0, "burst": 0, "trate": 0, "tburst": 0, "latency": 0, "eps": 2, "ev": []vh.Ev{},
 		"reads": map[string]any{"1": map[string]any{"segs": segs, "slen": 3 * size}}, "t0": map[string]any{"1": 0}, "tt0": 0}, nil
 }
